@@ -218,7 +218,9 @@ func (b *builder) build(goal ast.Atom, depth int) []*ProofNode {
 		}
 		proofs = append(proofs, p)
 	}
-	if len(proofs) > 0 || b.cuts == cutsBefore {
+	// Results that met the cycle cut are only valid under the current stack of
+	// goals, unless they are complete proofs.
+	if b.cuts == cutsBefore || (len(proofs) > 0 && len(partial) == 0) {
 		b.cache[h] = proofs
 	}
 	return proofs
@@ -333,12 +335,10 @@ func (b *builder) buildLet(ev *Event, ruleID string, depth int) *ProofNode {
 		}
 		sub := b.build(ground, depth+1)
 		if len(sub) == 0 {
-			if b.store.Contains(ground) {
-				sub = []*ProofNode{{ID: edbProofID(ground), Fact: ground, Kind: KindEDB}}
-			} else {
-				partial = true
-				continue
-			}
+			// Not in the store, or only derivable through a goal that is being
+			// proved right now.
+			partial = true
+			continue
 		}
 		premiseProofs = append(premiseProofs, sub[0])
 	}
@@ -361,12 +361,8 @@ func (b *builder) buildDo(ev *Event, ruleID string, depth int) *ProofNode {
 	for _, f := range ev.InputFacts {
 		sub := b.build(f, depth+1)
 		if len(sub) == 0 {
-			if b.store.Contains(f) {
-				sub = []*ProofNode{{ID: edbProofID(f), Fact: f, Kind: KindEDB}}
-			} else {
-				partial = true
-				continue
-			}
+			partial = true
+			continue
 		}
 		premiseProofs = append(premiseProofs, sub[0])
 	}
